@@ -272,8 +272,11 @@ def replay_case(case):
             for (k1, k2) in case["raw"]:
                 raw, rawabs = sev.raw_block_sep(b1[k1], b1[k2], "overlap")
                 g = cls.construct_array_contraction(shells1[k1], shells1[k2])
+                # judged on the scale the property names: after normalisation, absolute 1e-8
+                nn = norms[k1][:, :, None, None] * norms[k2][None, None, :, :]
                 res["dev"]["raw"] = max(res["dev"].get("raw", 0), compare(
-                    V, "Overlap.construct_array_contraction(%d,%d)" % (k1, k2), g, raw, 1e-9 * rawabs + 1e-300, case))
+                    V, "Overlap.construct_array_contraction(%d,%d) (normalised)" % (k1, k2), g * nn if g.shape == raw.shape else g,
+                    raw * nn, 1e-8, case))
     elif what == "kinetic":
         f = gb.mod("gbasis.integrals.kinetic_energy").kinetic_energy_integral
         got = f(shells1, transform=T) if T is not None else f(shells1)
@@ -319,6 +322,23 @@ def gen_pair_cases(pid, what, seed, tier, lmax, draws, extra):
                         sb = cg.shell(rng, lb, bits=bits, cen=sa["center"] if same else None)
                 cid += 1
                 c = {"id": cid, "pid": pid, "what": what, "kind": "pair", "la": la, "lb": lb, "basis": [sa, sb]}
+                c.update(extra(rng, c))
+                out.append(c)
+            if la + lb >= 4 and la >= 1 and lb >= 1:
+                # the tail regime: two diffuse shells so far apart along ONE axis that the Gaussian product prefactor is
+                # 1e-10..1e-14 while the polynomial factors keep the integral above the tolerance of the property
+                rng = cg.rng_for(seed, pid, "tail", la, lb)
+                bits = 10 if tier == "quick" else 24
+                ea, eb = cg.exponent(rng, 0.3, 1.0, bits), cg.exponent(rng, 0.3, 1.0, bits)
+                mu = cg.val(ea) * cg.val(eb) / (cg.val(ea) + cg.val(eb))
+                dist = cg.dyadic((rng.uniform(23.0, 32.0) / mu) ** 0.5, 12)
+                ax = rng.randrange(3)
+                cen_b = [[0, 0], [0, 0], [0, 0]]
+                cen_b[ax] = dist
+                sa = {"l": la, "center": [[0, 0]] * 3, "exps": [ea], "coeffs": [[cg.coeff(rng)]], "type": rng.choice(["cartesian", "spherical"])}
+                sb = {"l": lb, "center": cen_b, "exps": [eb], "coeffs": [[cg.coeff(rng)]], "type": rng.choice(["cartesian", "spherical"])}
+                cid += 1
+                c = {"id": cid, "pid": pid, "what": what, "kind": "pair", "la": la, "lb": lb, "basis": [sa, sb], "tail": True}
                 c.update(extra(rng, c))
                 out.append(c)
     return out
